@@ -174,6 +174,11 @@ def _run(pid, tier, classes, families, extra=None):
         sc, rr = cex_scenario("ServeImpl_goal_flushfault.cfg", "tlc-goal-flush-races-fault", rep // 2)
         ck.cov["tlc_runs"].append({"cfg": "ServeImpl_goal_flushfault.cfg", "goal_reached_via": rr.violation})
         scs.append(sc)
+    if "goals07" in families:
+        sc, rr = cex_scenario("ServeImpl_goal_flushblocked.cfg", "tlc-goal-flush-behind-blocked-reply", rep)
+        sc["paced"] = True      # the writer stays blocked: the client reads nothing until the end of the scenario
+        scs.append(sc)
+        ck.cov["tlc_runs"].append({"cfg": "ServeImpl_goal_flushblocked.cfg", "goal_reached_via": rr.violation})
     if "nofault" in families:
         behs, _ = simulate("ServeSim_nofault.cfg", 120 if q else 1500, 45)
         scs += [behaviour_to_scenario("sim-nofault-%d" % i, b, 2 if q else 3) for i, b in enumerate(behs)]
@@ -225,11 +230,11 @@ def _run(pid, tier, classes, families, extra=None):
 
 
 def c06(tier):
-    return _run("C06", tier, C06, ("nofault", "stale"))
+    return _run("C06", tier, C06, ("nofault", "stale", "goals07"))
 
 
 def c07(tier):
-    return _run("C07", tier, C07, ("nofault", "stale"))
+    return _run("C07", tier, C07, ("nofault", "stale", "goals07"))
 
 
 def _stoprace(ck, tier):
